@@ -225,6 +225,14 @@ func c18Paging(run *core.Run) {
 	if err := w.Run(3*walk.EpochMomentums + 30); err != nil {
 		core.Fatal("paging walk: %v", err)
 	}
+	// the queries answer from the account frontiers, which include the pool: everything is confirmed before they are compared
+	// with the confirmed storage
+	for k := 0; k < 8 && len(p.Chain.GetAllUncommittedAccountBlocks()) > 0 || k < 2; k++ {
+		core.Must(p.Produce(0))
+	}
+	if n := len(p.Chain.GetAllUncommittedAccountBlocks()); n > 0 {
+		core.Fatal("paging fixture: %d blocks stay in the pool", n)
+	}
 	for _, pb := range p.Problems {
 		run.ReportFor("C09", "C09:producer-problem", "producing pillar reported: "+pb+" (rpc paging fixture)", nil)
 	}
